@@ -591,14 +591,19 @@ pub fn bye_pattern_space() -> CfgSpace {
 /// SDES chunk lists as patterns: every sequence of length 0..=4 over four chunk shapes (SSRC 0 without items, SSRC 0
 /// with an item, a non-zero SSRC without items, a non-zero SSRC with two items).
 pub fn sdes_pattern_space() -> CfgSpace {
-    CfgSpace::new("sdes-chunk-patterns", seq_count(4, 4) * 2, |idx| {
-        let chunks = seq_decode(4, idx / 2)
+    // seven shapes: the four of the doc comment, and three more about the SAME source as shape 1 whose item bytes
+    // extend one another (a chunk that begins like its predecessor and goes on, or stops earlier)
+    CfgSpace::new("sdes-chunk-patterns", seq_count(7, 4) * 2, |idx| {
+        let chunks = seq_decode(7, idx / 2)
             .iter()
             .map(|&k| match k {
                 0 => Chunk { ssrc: 0, items: vec![] },
                 1 => Chunk { ssrc: 0, items: vec![Item::new(1, b"z")] },
                 2 => Chunk { ssrc: 0x0A00_0000, items: vec![] },
-                _ => Chunk { ssrc: 0x0000_00B0, items: vec![Item::new(2, b"nm"), Item::priv_(b"p", b"")] },
+                3 => Chunk { ssrc: 0x0000_00B0, items: vec![Item::new(2, b"nm"), Item::priv_(b"p", b"")] },
+                4 => Chunk { ssrc: 0, items: vec![Item::new(1, b"z"), Item::new(2, b"y")] },
+                5 => Chunk { ssrc: 0, items: vec![Item::new(1, b"z"), Item::new(2, b"y"), Item::priv_(b"", b"w")] },
+                _ => Chunk { ssrc: 0, items: vec![Item::new(1, b"zz")] },
             })
             .collect();
         Pkt::Sdes { chunks, pad: if idx % 2 == 0 { 0 } else { 8 } }
